@@ -57,7 +57,7 @@ Section Sim.
     inversion Rp as [f0 p0|f0 p0 v0|f0 p0 h G0 e SF W EN Hh HB C U|f0 p0 k c c' Rc CO|f0 p0 cs cs' HL Rcs CO]; subst.
     - cbn in E. inversion E; subst. split; [constructor|constructor].
     - cbn in E. inversion E; subst. split; [constructor|constructor].
-    - destruct (C p G (gsub_here H f p G e SF EN HB)) as (e' & E' & RS).
+    - destruct (proj1 C p G (gsub_here H f p G e SF EN HB)) as (e' & E' & RS).
       rewrite EN in E'. inversion E'; subst e'.
       cbn [get] in E. rewrite RS in E.
       destruct (get R fuel (collapse H G) p key) as [[[[v1 n1] d1] ev1]|er] eqn:GE; [|discriminate].
@@ -180,7 +180,7 @@ Section Sim.
         + split; [discriminate|]. intros [|fu'] L; [cbn in L; lia|]. eexists. split; reflexivity.
       - inversion Wn.
       - (* hash node *)
-        destruct (C p G (gsub_here H f p G e SF EN HB)) as (e' & E' & RS).
+        destruct (proj1 C p G (gsub_here H f p G e SF EN HB)) as (e' & E' & RS).
         rewrite EN in E'. inversion E'; subst e'.
         cbn [insert] in E. rewrite RS in E.
         destruct (insert R fu (collapse H G) p (k0 :: kr) (NValue v)) as [[[d1 n1] ev1]|er] eqn:IE; [|discriminate].
@@ -363,7 +363,10 @@ End SessGet.
 
 (* the empty database holds the empty trie: base case of the generation induction *)
 Lemma store_ok_empty H : store_ok H [] (H empty_root_preimage) NEmpty.
-Proof. split; [left; reflexivity|reflexivity]. Qed.
+Proof.
+  split; [left; reflexivity|]. split; [|reflexivity].
+  intros q _ (h & n & b & X). cbn in X. discriminate.
+Qed.
 
 (* insert emits only onInsert and resolution events *)
 Lemma insert_ev_all R (P : tev -> Prop) :
@@ -498,7 +501,7 @@ Section SimGetNode.
       + (* hash node *)
         destruct rest as [|r0 rr].
         * repeat (dmatch E; try (inversion E; subst; split; [constructor|intros _; exact Rp])).
-        * destruct (C p G (gsub_here H f p G e SF EN HB)) as (e' & E' & RS).
+        * destruct (proj1 C p G (gsub_here H f p G e SF EN HB)) as (e' & E' & RS).
           rewrite EN in E'. inversion E'; subst e'. rewrite RS in E.
           destruct (getnode H fu sc S dirty0 (collapse H G) p (r0 :: rr)) as [[[g1 c1] r1] ev1] eqn:GE.
           inversion E; subst.
